@@ -142,7 +142,7 @@ impl TrackSet {
     }
 }
 pub fn track_set() -> impl Strategy<Value = TrackSet> {
-    let spec = (prop_oneof![3 => axis_helix(), 1 => helix_params()], -PI..=PI, -PI..=PI).prop_map(|(p, a, b)| TrackSpec { params: fx6(p), t_inner: Fx(a), t_outer: Fx(b) });
+    let spec = (prop_oneof![3 => axis_helix(), 1 => helix_params(), 1 => beamline_helix()], -PI..=PI, -PI..=PI).prop_map(|(p, a, b)| TrackSpec { params: fx6(p), t_inner: Fx(a), t_outer: Fx(b) });
     (vec(spec, 0..=8), vec((any::<u16>(), 0u8..3), 0..=3)).prop_map(|(tracks, ties)| TrackSet { tracks, ties })
 }
 
@@ -162,7 +162,7 @@ fn vertex_case(c: &TrackSet, ev: &mut Ev) -> Outcome {
 
 fn run(r: &Run) {
     let t = r.tier;
-    r.prop("pipeline", t.pick(1_500, 60_000), || points_case(400), pipeline);
+    r.prop("pipeline", t.pick(2_500, 100_000), || points_case(400), pipeline);
     r.prop("pipeline_large", t.pick(24, 1_000), || points_case(2000), pipeline);
     r.prop("direct_fits", t.pick(6_000, 300_000), || group(60).prop_map(|mut g| { g.n = g.n.max(13); g }), direct_fit);
     r.prop("track_sets", t.pick(4_000, 200_000), track_set, vertex_case);
